@@ -107,7 +107,10 @@ def parse_contracts(path):
             sec = "entry"
             continue
         if line.startswith("@closure "):
-            k = int(line.split()[1])
+            k = line.split()[1]
+            # `@closure 3` = third closure of the function; `@closure |err|#2` = second closure whose parameter list is `|err|`
+            # (robust against closures being added or removed elsewhere in the function)
+            k = int(k) if k.isdigit() else line[len("@closure "):].strip()
             cur = Contract("closure", k)
             cur_fn.closures[k] = cur
             sec = None
@@ -447,9 +450,19 @@ class Unit:
                     inserts.append((L.match_close(m, bo), "entry", lc.raw["before_body_end"], None))
             closures = L.find_closures(m, 1, len(m) - 1)
             for k, cc in c.closures.items():
-                if k > len(closures):
-                    raise LostAnchor("%s: closure #%d of %s not found" % (it.file, k, it.name))
-                inserts.append((closures[k - 1]["bars"][0], "closure", cc, closures[k - 1]))
+                if isinstance(k, str):
+                    pat, _, nth = k.partition("#")
+                    want = "".join(pat.split())
+                    cands = [cl_ for cl_ in closures if "".join(body[cl_["bars"][0]:cl_["bars"][1]].split()) == want]
+                    nth = int(nth) if nth else 1
+                    if nth > len(cands):
+                        raise LostAnchor("%s: closure `%s` of %s not found" % (it.file, k, it.name))
+                    target = cands[nth - 1]
+                else:
+                    if k > len(closures):
+                        raise LostAnchor("%s: closure #%d of %s not found" % (it.file, k, it.name))
+                    target = closures[k - 1]
+                inserts.append((target["bars"][0], "closure", cc, target))
             for ac in getattr(c, "after_stmts", []):
                 # anchor: after EVERY statement whose text matches the regex (same hint at all of them)
                 hits = []
@@ -616,9 +629,9 @@ class Unit:
                     raise UnitError("closure contract without header in %s" % it.name)
                 segs.append(("t", hdr + "\n"))
                 add_section("requires", payload.sections.get("requires"), "requires",
-                            "closure%d.requires" % payload.key, indent="            ")
+                            "closure%s.requires" % payload.key, indent="            ")
                 add_section("ensures", payload.sections.get("ensures"), "ensures",
-                            "closure%d.ensures" % payload.key, indent="            ")
+                            "closure%s.ensures" % payload.key, indent="            ")
                 bs, be = cl["body"]
                 inner = body[bs:be]
                 segs.append(("t", "        " + (inner if cl["braced"] else "{ " + inner + " }")))
